@@ -691,3 +691,103 @@ def apply_bind_rule(prog, cg, eff, chk, rid, gens=(1, 2)):
         chk.violation(rid, key, loc, txt + ': an identifier of one kind of row is used where another kind is '
                       'expected, so the statement matches the wrong rows or none')
     return len(oks) + len(finds)
+
+
+_NARROW = ('int', 'unsigned int', 'unsigned', 'int32_t', 'uint32_t', 'short', 'unsigned short', 'int16_t', 'uint16_t',
+           'char', 'signed char', 'unsigned char', 'int8_t', 'uint8_t', 'float')
+
+
+def _int_width_ok(t):
+    """True / False for an integral (or optional integral) type string, None when not integral."""
+    import re as _re
+    x = _re.sub(r'\bconst\b|&|\bstd::|\s+', ' ', t or '').strip()
+    x = _re.sub(r'\s+', ' ', x)
+    m = _re.match(r'^optional<\s*(.*?)\s*>$', x)
+    if m:
+        x = m.group(1).strip()
+    if x in ('int64_t', 'long', 'long long', 'uint64_t', 'unsigned long', 'unsigned long long', 'sqlite3_int64',
+             'sqlite_int64', 'long int', 'long long int'):
+        return True
+    if x in _NARROW:
+        return False
+    return None
+
+
+def apply_width_rule(prog, cg, eff, chk, rid, gens=(1, 2)):
+    """Row identifiers are SQLite INTEGERs (64 bit).  Every C++ declaration an identifier passes
+    through on its way between a column and a handle must be 64 bits wide: constructor parameters
+    and id() of the handle / impl classes, parameters bound against identifier columns (directly
+    or through callees), lambda parameters that receive identifier columns.  (A narrower parameter
+    truncates silently, e.g. inside make_shared's forwarding, with no cast in the source.)"""
+    from . import rowrules
+    from .program import locstr
+    from .rules import c13
+    cats = rowrules.version_catalogs(prog)
+    supported = [en for en in rowrules.enum_order(prog) if en in set(c13._supported(prog))]
+    vs = []
+    for g in gens:
+        gv = [en for en in supported if (2 if rowrules._gen2(en) else 1) == g]
+        if gv:
+            vs += [gv[0], gv[-1]] if len(gv) > 1 else gv
+    bt = BindTyping(prog, cg, eff, cats, vs)
+    n = 0
+
+    def judge(t, what, loc, key):
+        nonlocal n
+        ok = _int_width_ok(t)
+        if ok is None:
+            return
+        n += 1
+        if ok:
+            chk.ok(rid, '%s is %s' % (what, t), loc)
+        else:
+            chk.violation(rid, key, loc, '%s has type %s: a row identifier (64-bit INTEGER) is truncated when it '
+                          'passes through, so the handle or statement refers to another row' % (what, t))
+    byk = {f.key: f for f in bt.funcs}
+    for (fk, i), doms in sorted(bt.use.items(), key=lambda kv: str(kv[0])):
+        f = byk.get(fk)
+        if f is None or i >= len(f.params):
+            continue
+        short = '::'.join((f.qualname or '').split('::')[-2:])
+        p = f.params[i]
+        judge(p.get('type') or '', 'parameter %s of %s (bound against %s columns)' % (p.get('name'), short, '/'.join(sorted(doms))),
+              locstr(f.node), '%s|param %s' % (short, p.get('name')))
+    # handle / impl classes: constructor parameters and id()
+    for r in prog.records.values():
+        if not prog.in_repo(getattr(r, 'file', '') or ''):
+            continue
+        hd = _handle_domain(prog, bt.handles, r.qualname)
+        if not hd:
+            continue
+        for f in prog.functions.values():
+            if f.cls != r.qualname or f.is_pattern:
+                continue
+            short = '::'.join((f.qualname or '').split('::')[-2:])
+            if f.kind == 'CXXConstructorDecl':
+                for p in f.params:
+                    judge(p.get('type') or '', 'constructor parameter %s of %s (a %s handle)' % (p.get('name'), short, hd),
+                          locstr(f.node), '%s|ctor param %s' % (short, p.get('name')))
+            elif f.name == 'id' and not f.params:
+                judge(f.ret or '', 'return type of %s' % short, locstr(f.node), '%s|id()' % short)
+    # lambda parameters that receive identifier columns
+    for sm in bt.maps:
+        if sm.stmt.kind != 'select' or sm.site.sink is None:
+            continue
+        f = sm.site.func
+        from .program import children, strip, walk
+        ptypes = []
+        for x in walk(strip(sm.site.sink)):
+            if x.get('kind') == 'CXXMethodDecl' and x.get('name') == 'operator()':
+                ptypes = [(p.get('name'), p.get('type') or '') for p in children(x) if p.get('kind') == 'ParmVarDecl']
+                break
+        t = sm.stmt.table
+        for i, (text, col, tgt) in enumerate(sm.out):
+            if not col or i >= len(ptypes) or not t:
+                continue
+            cd = bt._coldom(f, t, col)
+            if not cd:
+                continue
+            short = '::'.join((f.qualname or '').split('::')[-2:])
+            judge(ptypes[i][1], 'lambda parameter %s of %s receiving %s.%s (%s)' % (ptypes[i][0], short, t, col, '/'.join(sorted(cd))),
+                  locstr(sm.site.node), '%s|sink %s.%s' % (short, t.lower(), col.lower()))
+    return n
